@@ -175,6 +175,17 @@ class AutoSerialize:
         return val
 
     @staticmethod
+    def _numpy_rng_from_group(subgrp: zarr.Group) -> np.random.Generator:
+        """Recreate a NumPy random generator of the saved bit-generator kind (fresh state)."""
+        import numpy.random as npr
+
+        bit_generator_type = subgrp.attrs.get("_bit_generator_type", "PCG64")
+        bit_gen_cls = {"MT19937": npr.MT19937, "Philox": npr.Philox, "SFC64": npr.SFC64}.get(
+            cast(str, bit_generator_type), npr.PCG64
+        )
+        return npr.Generator(bit_gen_cls())
+
+    @staticmethod
     def _is_autoserialize_instance(value: Any) -> bool:
         """Return True if value behaves like an AutoSerialize instance, even across autoreloads."""
         if isinstance(value, AutoSerialize):
@@ -443,7 +454,15 @@ class AutoSerialize:
             if hasattr(rng_state, "tolist"):
                 subgroup.attrs["_rng_state"] = rng_state.tolist()
             else:
-                subgroup.attrs["_rng_state"] = rng_state
+                # MT19937 / Philox / SFC64 states hold ndarrays (possibly nested): make JSON-able
+                def _jsonable(o):
+                    if isinstance(o, dict):
+                        return {k: _jsonable(v) for k, v in o.items()}
+                    if isinstance(o, (np.ndarray, np.generic)):
+                        return o.tolist()
+                    return o
+
+                subgroup.attrs["_rng_state"] = _jsonable(rng_state)
             subgroup.attrs["_rng_type"] = value.__class__.__name__
             subgroup.attrs["_bit_generator_type"] = value.bit_generator.__class__.__name__
 
@@ -964,6 +983,8 @@ class AutoSerialize:
                             else:
                                 # Skip unknown logger types in containers
                                 continue
+                        elif subgroup.attrs.get("_numpy_rng"):
+                            items.append(AutoSerialize._numpy_rng_from_group(subgroup))
                         else:
                             raise ValueError(
                                 f"Unknown group structure at key '{key}' in {group.path}"
@@ -1083,6 +1104,8 @@ class AutoSerialize:
                         else:
                             # Skip unknown logger types in containers
                             continue
+                    elif subgroup.attrs.get("_numpy_rng"):
+                        items.append(AutoSerialize._numpy_rng_from_group(subgroup))
                     else:
                         raise ValueError(f"Unknown group structure at key '{key}' in {group.path}")
                 else:
@@ -1173,6 +1196,8 @@ class AutoSerialize:
                     else:
                         # Skip unknown logger types in containers
                         continue
+                elif subgroup.attrs.get("_numpy_rng"):
+                    result[key] = AutoSerialize._numpy_rng_from_group(subgroup)
                 else:
                     raise ValueError(f"Unknown group structure at key '{key}' in {group.path}")
 
